@@ -413,6 +413,24 @@ class Summarizer:
         return base, keys
 
     def _for(self, st: ast.For, p: Path, ci, dyn, depth, fn, mod):
+        # a loop over a short literal tuple / list of constants is unrolled
+        lit = st.iter
+        if isinstance(lit, ast.Name) and isinstance(p.env.get(lit.id), (ast.Tuple, ast.List)):
+            lit = p.env[lit.id]
+        if isinstance(lit, (ast.Tuple, ast.List)) and len(lit.elts) <= 12 and all(isinstance(x, ast.Constant) for x in lit.elts) \
+                and isinstance(st.target, ast.Name) and not st.orelse \
+                and not any(isinstance(x, (ast.Break, ast.Continue)) for b in st.body for x in ast.walk(b)):
+            paths = [p]
+            for c in lit.elts:
+                nxt = []
+                for q in paths:
+                    if q.end is not None:
+                        nxt.append(q)
+                        continue
+                    q.env[st.target.id] = c
+                    nxt += self._body(st.body, [q], ci, dyn, depth, fn, mod)
+                paths = nxt
+            return paths
         # summarise `for _ in range(n): x = f(x)`
         it = subst(st.iter, p.env)
         if isinstance(it, ast.Call) and isinstance(it.func, ast.Name) and it.func.id == 'range' \
@@ -646,6 +664,8 @@ def _has_loop(fn: ast.FunctionDef) -> bool:
             return True
         if isinstance(n, ast.For):
             # simple repeat loops are summarised
+            if isinstance(n.iter, (ast.Tuple, ast.List)) and all(isinstance(x, ast.Constant) for x in n.iter.elts):
+                continue
             if not (isinstance(n.iter, ast.Call) and isinstance(n.iter.func, ast.Name) and n.iter.func.id == 'range'
                     and len(n.body) == 1 and isinstance(n.body[0], ast.Assign)):
                 return True
